@@ -63,7 +63,33 @@ pub struct ReqSpec {
 /// Deterministic extra headers for request (`dir` 0) or response (`dir` 1) number `id`.
 pub fn extra_headers(id: usize, hdrs: u8, dir: u8) -> Vec<(&'static str, Vec<u8>)> {
     const NAMES: [&str; 7] = ["x-a", "x-dup", "x-b", "x-dup", "x-long", "x-empty", "x-bin"];
+    // well-known end-to-end headers (requests) / representation headers (responses)
+    const REQ_STD: [(&str, &str); 8] = [
+        ("te", "trailers"),
+        ("accept", "text/html, application/xhtml+xml;q=0.9, */*;q=0.8"),
+        ("cookie", "a=1; b=2"),
+        ("authorization", "Bearer abc.def-ghi"),
+        ("content-type", "application/json; charset=utf-8"),
+        ("user-agent", "hdv/1.0 (x; y)"),
+        ("accept-encoding", "gzip, br"),
+        ("cache-control", "no-cache"),
+    ];
+    const RESP_STD: [(&str, &str); 8] = [
+        ("content-type", "text/plain; charset=utf-8"),
+        ("etag", "\"abc-1\""),
+        ("set-cookie", "a=1; Path=/"),
+        ("set-cookie", "b=2; HttpOnly"),
+        ("cache-control", "max-age=0, must-revalidate"),
+        ("vary", "accept-encoding"),
+        ("www-authenticate", "Basic realm=\"x\""),
+        ("content-language", "en"),
+    ];
     let n = (hdrs % 8) as usize;
+    let bits = if hdrs == 0 { 0 } else { hdrs.wrapping_mul(37) ^ (id as u8) };
+    let std = (0..8usize).filter(move |k| bits >> k & 1 == 1).map(move |k| {
+        let (name, value) = if dir == 0 { REQ_STD[k] } else { RESP_STD[k] };
+        (name, value.as_bytes().to_vec())
+    });
     (0..n)
         .map(|k| {
             let name = NAMES[(k + hdrs as usize / 8) % NAMES.len()];
@@ -76,13 +102,22 @@ pub fn extra_headers(id: usize, hdrs: u8, dir: u8) -> Vec<(&'static str, Vec<u8>
             };
             (name, value)
         })
+        .chain(std)
         .collect()
 }
 
 /// Compares the generated extra headers with what arrived, per name and in order.
 pub fn extra_headers_problem(headers: &http::HeaderMap, id: usize, hdrs: u8, dir: u8) -> Option<String> {
     let want = extra_headers(id, hdrs, dir);
-    for name in ["x-a", "x-dup", "x-b", "x-long", "x-empty", "x-bin"] {
+    let mut names: Vec<&str> = vec!["x-a", "x-dup", "x-b", "x-long", "x-empty", "x-bin"];
+    // well-known headers are compared only when the script sent them (the stack may add its own
+    // user-agent, content-length and the like)
+    for (n, _) in &want {
+        if !names.contains(n) {
+            names.push(n);
+        }
+    }
+    for name in names {
         let w: Vec<&[u8]> = want.iter().filter(|(n, _)| *n == name).map(|(_, v)| v.as_slice()).collect();
         let g: Vec<&[u8]> = headers.get_all(name).iter().map(|v| v.as_bytes()).collect();
         if w != g {
@@ -120,7 +155,7 @@ pub struct FaultSpec {
     pub server: u8,
     pub at: u16,
     /// 0 cancelled connect, 1 immediate disconnect, 2 garbage, 3 truncated head, 4 truncated body,
-    /// 5 disconnect mid response, 6 half-sent h2 preface
+    /// 5 disconnect mid response, 6 half-sent h2 preface, 7 idle holder, 8 degenerate pipe size (0 / 1 bytes)
     pub kind: u8,
     pub arg: u16,
 }
@@ -857,7 +892,7 @@ async fn run_request(svc: ClientSvc, req: http::Request<ChunkBody>, id: usize, r
 async fn run_fault(client: DuplexClient, f: FaultSpec, obs: O) {
     use tokio::io::{AsyncReadExt, AsyncWriteExt};
     let log = |s: String| obs.lock().unwrap().fault_log.push(s);
-    match f.kind % 8 {
+    match f.kind % 9 {
         0 => {
             // cancelled connect: the request is queued, the connecting future dropped before the ack
             let fut = client.connect(1024);
@@ -906,6 +941,16 @@ async fn run_fault(client: DuplexClient, f: FaultSpec, obs: O) {
                 let _ = s.write_all(&b"PRI * HTTP/2.0\r\n\r\nSM\r\n\r\n"[..(f.arg as usize % 23 + 1)]).await;
                 tokio::time::sleep(Duration::from_millis(2)).await;
                 log("partial preface".into());
+            }
+        }
+        8 => {
+            // a client that asks for a degenerate pipe (0 or 1 bytes) and then tries to talk
+            let size = (f.arg % 2) as usize;
+            if let Ok(mut s) = client.connect(size).await {
+                let _ = tokio::time::timeout(Duration::from_millis(3), s.write_all(b"GET /fault/tiny HTTP/1.1\r\nhost: x\r\n\r\n")).await;
+                log(format!("client asked for a {size}-byte pipe"));
+            } else {
+                log(format!("connect with a {size}-byte pipe was refused"));
             }
         }
         _ => {
